@@ -555,7 +555,20 @@ pub fn run_with_provider(req: &WireRequest, cfg: &ServerConfig, prov: &mut Prov)
         None => return Outcome { res: Res::Unrepresentable("server time not representable".into()), prov_log: vec![], polls: 0 },
     };
     let r = &cfg.reqs;
-    let (res, polls) = match r.route {
+    // building the requirement set is the crate's code too (new / add_* / remove_*): a panic there is the crate's
+    let built = catch_unwind(AssertUnwindSafe(|| run_route(http_req, cfg, now, prov, r)));
+    let (res, polls) = match built {
+        Ok(x) => x,
+        Err(p) => {
+            let loc = take_panic_location().unwrap_or_default();
+            (Res::Panic(format!("{} @ {} (while building the signed-header requirements, route {})", panic_message(p), loc, r.route)), 0)
+        }
+    };
+    Outcome { res, prov_log: prov.take_log(), polls }
+}
+
+fn run_route(http_req: http::Request<Bytes>, cfg: &ServerConfig, now: DateTime<Utc>, prov: &mut Prov, r: &Reqs) -> (Res, u32) {
+    match r.route {
         0 => {
             let a: Vec<Cow<'_, str>> = r.always.iter().map(|s| Cow::Borrowed(s.as_str())).collect();
             let b: Vec<Cow<'_, str>> = r.if_in_request.iter().map(|s| Cow::Borrowed(s.as_str())).collect();
@@ -634,8 +647,7 @@ pub fn run_with_provider(req: &WireRequest, cfg: &ServerConfig, prov: &mut Prov)
             }
             validate_with(http_req, cfg, now, prov, &reqs)
         }
-    };
-    Outcome { res, prov_log: prov.take_log(), polls }
+    }
 }
 
 pub fn run(case: &Case) -> Outcome {
